@@ -462,7 +462,14 @@ def c01_r(ctx):
         want1 = "(AddWithOverflow(%s, (Vec::len(&%s) as u64))).0" % (expr_str(off), data)
         want2 = "Add(%s, (Vec::len(&%s) as u64))" % (expr_str(off), data)
         if es not in (want1, want2):
-            problems.append("merge end %s is not offset + len(written buffer)" % es)
+            # the length may have been given a name: `let length = data.len(); .. offset + length as u64`
+            es2 = es
+            for vn in set(re.findall(r"\b[a-z_]\w*\b", es)):
+                ds = [sstr(x) for x in eb.var_defs(vn)] if vn not in (expr_str(off), data) else []
+                if len(ds) == 1 and ds[0] in ("Vec::len(%s)" % data, "slice::len(%s)" % data):
+                    es2 = re.sub(r"\(%s as u64\)" % re.escape(vn), "(Vec::len(&%s) as u64)" % data, es2)
+            if es2 not in (want1, want2):
+                problems.append("merge end %s is not offset + len(written buffer)" % es)
     # offset and data come from the same PDU value
     if off is not None and data is not None and not problems:
         od = [expr_str(x) for x in eb.var_defs(off[1])]
